@@ -312,7 +312,7 @@ class CGMYModel(LevyModel):
 
         res = 0
         if y == 0:
-            res += -c * (np.log(1 + x / g) + np.log(1 - x / m))
+            res += -c * (np.log(1 + x / g) + np.log(1 - x / m)) - c * x * (1 / m - 1 / g)
         elif y == 1.0:
             res += c * (
                 (g + x) * np.log(g + x)
